@@ -82,6 +82,9 @@ func (p *Program) findIntrinsic(fn *ssa.Function, name string) intrinsicFn {
 		if strings.HasPrefix(fn.Name(), "verifNondet") {
 			return harnessIntrinsics["verifNondetAny"]
 		}
+		if strings.HasPrefix(fn.Name(), "verifDecode") {
+			return harnessIntrinsics["verifDecodeAny"]
+		}
 	}
 	if fn.Name() == "init" && fn.Signature.Recv() == nil {
 		return initIntrinsic
